@@ -14,8 +14,8 @@ RULE = (
     "case = network of one of the three classes (isolated nodes, empty edges, multi-edges, explicit IDs of any kind, "
     "nested attributes at all three levels) + integer keys that permute the vertex insertion order and the edge "
     "orientation of the bipartite graph. Round trips through hyperedge list / dict, bipartite edge list, labelled and "
-    "positional incidence matrix, bipartite graph (index maps; shuffled insertion order), two-column dataframe, the "
-    "standard hypergraph dict, the HIF dict, and the class-to-class constructors must return the same incidences "
+    "positional incidence matrix, bipartite graph (index maps; shuffled insertion order; dual=True), two-column dataframe (columns by name, by position, swapped), the "
+    "standard hypergraph dict, the HIF dict (also under str casts), and the class-to-class constructors must return the same incidences "
     "(with direction), labels and order where carried, attributes and class where promised. non-trivial = the network "
     "has an isolated node, an empty edge or an attribute, and two edges sharing a node"
 )
